@@ -396,6 +396,24 @@ impl<'w, 'a, 'b, 'c> World<'w, 'a, 'b, 'c> {
 		}
 	}
 
+	/// The detail string handle_event records for a payment event, without handle_event's side effects.
+	fn detail_of(&self, ev: &Event) -> String {
+		match ev {
+			Event::PaymentClaimable { payment_hash, .. } => self.pay_tag(payment_hash),
+			Event::PaymentClaimed { payment_hash, .. } => self.pay_tag(payment_hash),
+			Event::PaymentSent { payment_hash, .. } => self.pay_tag(payment_hash),
+			Event::PaymentFailed { payment_hash: Some(h), .. } => self.pay_tag(h),
+			Event::PaymentPathSuccessful { payment_hash: Some(h), .. } => self.pay_tag(h),
+			Event::PaymentPathFailed { payment_hash, .. } => self.pay_tag(payment_hash),
+			Event::PaymentForwarded { prev_htlcs, next_htlcs, .. } => {
+				let p: Vec<String> = prev_htlcs.iter().map(|h| cid(&h.channel_id)).collect();
+				let q: Vec<String> = next_htlcs.iter().map(|h| cid(&h.channel_id)).collect();
+				format!("{}>{}", p.join("+"), q.join("+"))
+			},
+			_ => String::new(),
+		}
+	}
+
 	fn handle_event(&mut self, n: usize, ev: Event) {
 		let dbg = format!("{:?}", ev);
 		let name: String = dbg.chars().take_while(|c| c.is_alphanumeric()).collect();
@@ -454,7 +472,7 @@ impl<'w, 'a, 'b, 'c> World<'w, 'a, 'b, 'c> {
 						// the application's handler fails for some events: they must stay queued and be
 						// delivered again
 						let got: std::cell::RefCell<Vec<Event>> = std::cell::RefCell::new(Vec::new());
-						let refused: std::cell::RefCell<Vec<String>> = std::cell::RefCell::new(Vec::new());
+						let refused: std::cell::RefCell<Vec<(String, Event)>> = std::cell::RefCell::new(Vec::new());
 						let kinds = self.c.evfail.clone();
 						let left = std::cell::Cell::new(self.c.evfail_left);
 						self.nodes[n].node.process_pending_events(&|ev: Event| {
@@ -462,15 +480,16 @@ impl<'w, 'a, 'b, 'c> World<'w, 'a, 'b, 'c> {
 							let name: String = dbg.chars().take_while(|c| c.is_alphanumeric()).collect();
 							if left.get() > 0 && kinds.iter().any(|k| *k == name) {
 								left.set(left.get() - 1);
-								refused.borrow_mut().push(name);
+								refused.borrow_mut().push((name, ev));
 								return Err(lightning::events::ReplayEvent());
 							}
 							got.borrow_mut().push(ev);
 							Ok(())
 						});
 						self.c.evfail_left = left.get();
-						for name in refused.into_inner() {
-							self.c.replayed.push((n, name, String::new()));
+						for (name, ev) in refused.into_inner() {
+							let detail = self.detail_of(&ev);
+							self.c.replayed.push((n, name, detail));
 						}
 						for ev in got.into_inner() {
 							activity = true;
@@ -915,24 +934,27 @@ struct Snap {
 	latest: HashMap<ChannelId, u64>,
 	inflight: HashMap<ChannelId, Vec<u64>>,
 	blocked: HashMap<ChannelId, Vec<u64>>,
+	hold: HashMap<ChannelId, usize>,
 	events_at_step: Vec<(String, String)>,
 }
 
 fn view_ids(
 	node: &Node, ids: &Vec<PublicKey>, chans: &Vec<(ChannelId, usize)>,
-) -> (HashMap<ChannelId, u64>, HashMap<ChannelId, Vec<u64>>, HashMap<ChannelId, Vec<u64>>) {
+) -> (HashMap<ChannelId, u64>, HashMap<ChannelId, Vec<u64>>, HashMap<ChannelId, Vec<u64>>, HashMap<ChannelId, usize>) {
 	let mut latest = HashMap::new();
 	let mut infl = HashMap::new();
 	let mut blk = HashMap::new();
+	let mut hold = HashMap::new();
 	for (chan, peer) in chans.iter() {
 		if let Some((Some(v), inflight, _)) = vh::monupd_view(node.node, &ids[*peer], chan) {
 			// the id the channel would be compared with on reload
 			latest.insert(*chan, v.latest_monitor_update_id);
 			blk.insert(*chan, v.blocked_update_ids.clone());
+			hold.insert(*chan, v.holding_cell_htlc_updates);
 			infl.insert(*chan, inflight);
 		}
 	}
-	(latest, infl, blk)
+	(latest, infl, blk, hold)
 }
 
 fn param<'x>(head: &'x [&'x str], key: &str) -> Option<&'x str> {
@@ -1012,9 +1034,9 @@ fn run_trial(line: &str) {
 		w.c.events.clear();
 		w.c.errs.clear();
 		w.c.queues.clear();
-		let (l0, i0, k0) = view_ids(&nodes[x], &ids, &w.c.chans[x]);
+		let (l0, i0, k0, h0) = view_ids(&nodes[x], &ids, &w.c.chans[x]);
 		let b0 = nodes[x].node.encode();
-		snaps.push(Snap { pre: b0.clone(), post: b0, latest: l0, inflight: i0, blocked: k0, events_at_step: Vec::new() });
+		snaps.push(Snap { pre: b0.clone(), post: b0, latest: l0, inflight: i0, blocked: k0, hold: h0, events_at_step: Vec::new() });
 		for i in 1..=k {
 			step.store(i, Ordering::SeqCst);
 			w.c.step = i;
@@ -1032,8 +1054,8 @@ fn run_trial(line: &str) {
 			let pre_bytes = nodes[x].node.encode();
 			w.drain();
 			let evs: Vec<(String, String)> = w.c.events[ev_before..].iter().filter(|(n, _, _)| *n == x).map(|(_, a, b)| (a.clone(), b.clone())).collect();
-			let (l, inf, blk) = view_ids(&nodes[x], &ids, &w.c.chans[x]);
-			snaps.push(Snap { pre: pre_bytes, post: nodes[x].node.encode(), latest: l, inflight: inf, blocked: blk, events_at_step: evs });
+			let (l, inf, blk, hld) = view_ids(&nodes[x], &ids, &w.c.chans[x]);
+			snaps.push(Snap { pre: pre_bytes, post: nodes[x].node.encode(), latest: l, inflight: inf, blocked: blk, hold: hld, events_at_step: evs });
 		}
 		carry = w.c.clone();
 	}
@@ -1055,11 +1077,13 @@ fn run_trial(line: &str) {
 	let snap_latest = snaps[j].latest.clone();
 	let snap_inflight = snaps[j].inflight.clone();
 	let snap_blocked = snaps[j].blocked.clone();
+	let snap_hold = snaps[j].hold.clone();
 	let expect_events: Vec<(String, String)> = if use_pre { snaps[k].events_at_step.clone() } else { Vec::new() };
 	let mut mon_bytes: Vec<Vec<u8>> = Vec::new();
 	let mut mon_ids: HashMap<ChannelId, u64> = HashMap::new();
 	let mut mon_range: Vec<String> = Vec::new();
 	{
+		let open_now: HashSet<ChannelId> = nodes[x].node.list_channels().iter().map(|d| d.channel_id).collect();
 		let st = persisters[x].st.lock().unwrap();
 		let mut rng = verif_harness::Rng(mon_mode.trim_start_matches("mix").parse::<u64>().unwrap_or(7) ^ ((k as u64) << 20) ^ ((lag as u64) << 8));
 		for (chan, _) in carry.chans[x].iter() {
@@ -1076,7 +1100,10 @@ fn run_trial(line: &str) {
 			let wsel = writes.iter().rev().find(|w| w.id == chosen).expect("a write for every id");
 			mon_bytes.push(wsel.bytes.clone());
 			mon_ids.insert(*chan, chosen);
-			mon_range.push(format!("{{\"chan\":{},\"completed\":{},\"handed\":{},\"chosen\":{}}}", js(&cid(chan)), completed, maxid, chosen));
+			mon_range.push(format!(
+				"{{\"chan\":{},\"completed\":{},\"handed\":{},\"chosen\":{},\"open_at_crash\":{}}}",
+				js(&cid(chan)), completed, maxid, chosen, open_now.contains(chan)
+			));
 		}
 	}
 	let pays_json: Vec<String> = carry
@@ -1092,11 +1119,12 @@ fn run_trial(line: &str) {
 		.iter()
 		.map(|(c, _)| {
 			format!(
-				"{{\"chan\":{},\"mgr_latest\":{},\"mgr_inflight\":[{}],\"mgr_blocked\":[{}],\"mon\":{}}}",
+				"{{\"chan\":{},\"mgr_latest\":{},\"mgr_inflight\":[{}],\"mgr_blocked\":[{}],\"mgr_holding_cell\":{},\"mon\":{}}}",
 				js(&cid(c)),
 				snap_latest.get(c).map(|v| *v as i64).unwrap_or(-1),
 				snap_inflight.get(c).map(|v| v.iter().map(|x| x.to_string()).collect::<Vec<_>>().join(",")).unwrap_or_default(),
 				snap_blocked.get(c).map(|v| v.iter().map(|x| x.to_string()).collect::<Vec<_>>().join(",")).unwrap_or_default(),
+				snap_hold.get(c).copied().unwrap_or(0),
 				mon_ids[c]
 			)
 		})
@@ -1227,7 +1255,7 @@ fn run_trial(line: &str) {
 	partial(format!(
 		",\"scripted_fc\":{},\"handler_refused\":{},\"closed\":{},\"events_after\":{},\"expect_events\":{},\"errs\":{},\"claim_ops\":{},\"final_chans\":{},\"queued\":{}",
 		jarr(&scripted_fc.iter().map(|c| js(c)).collect::<Vec<_>>()),
-		jarr(&replayed.iter().map(|(n, a, _)| jarr(&[n.to_string(), js(a)])).collect::<Vec<_>>()),
+		jarr(&replayed.iter().map(|(n, a, d)| jarr(&[n.to_string(), js(a), js(d)])).collect::<Vec<_>>()),
 		jarr(&closed.iter().map(|(n, c, r)| jarr(&[n.to_string(), js(c), js(r)])).collect::<Vec<_>>()),
 		jarr(&events.iter().map(|(n, a, b)| jarr(&[n.to_string(), js(a), js(b)])).collect::<Vec<_>>()),
 		jarr(&expect_events.iter().map(|(a, b)| jarr(&[js(a), js(b)])).collect::<Vec<_>>()),
